@@ -57,6 +57,7 @@ class Registry:
         self.specfuns = {}      # name -> (argtypes, rettype, z3 func or None, definition)
         self.axioms = []        # (name, vars, body text, note)
         self.lemmas = []        # (name, vars, hyps, goal, note)
+        self.inductions = []
         self.constants = {}     # dotted source text -> (type text)
         self.exc_parents = dict(BUILTIN_EXC)
         self.bounded = []       # bounded stand-ins: dicts
@@ -97,12 +98,28 @@ class Registry:
         self.specfuns[name] = {"args": list(params.values()), "ret": rettype, "def": body,
                                "params": list(params.keys()), "recursive": recursive, "note": ""}
 
-    def axiom(self, name, vars, body, note="", patterns=None):
+    def axiom(self, name, vars, body, note="", patterns=None, strmode=None):
         self.axioms.append({"name": name, "vars": dict(vars), "body": body, "note": note, "patterns": patterns})
 
-    def lemma(self, name, vars, hyps, goal, note="", uses=(), strmode="string"):
+    def lemma(self, name, vars, hyps, goal, note="", uses=(), strmode="string", export=False, hints=(), patterns=None):
+        """hints: terms whose reflexivity instance (t == t) is added so that the instantiation heuristics see them.
+        export: after its proof the lemma joins the axioms (forall vars: hyps -> goal) for contracts declared in the same sidecar."""
         self.lemmas.append({"name": name, "vars": dict(vars), "hyps": list(hyps), "goal": goal, "note": note,
-                            "uses": list(uses), "strmode": strmode})
+                            "uses": list(uses), "strmode": strmode, "hints": list(hints)})
+        if export:
+            guard = " and ".join("(%s)" % h for h in hyps) or "True"
+            self.axioms.append({"name": "lemma_" + name, "vars": dict(vars), "body": "implies(%s, %s)" % (guard, goal),
+                                "note": "proved as lemma:%s" % name, "patterns": patterns, "from_induction": True})
+
+    def induction(self, name, vars, on, body, note="", hyps=()):
+        """A fact proved by induction on the Int variable `on` (base: on == 0, step: on -> on + 1), then available as an axiom
+        forall vars, on >= 0: hyps -> body."""
+        self.inductions.append({"name": name, "vars": dict(vars), "on": on, "body": body, "note": note, "hyps": list(hyps)})
+        allvars = dict(vars)
+        allvars[on] = "Int"
+        guard = " and ".join(["%s >= 0" % on] + ["(%s)" % h for h in hyps])
+        self.axioms.append({"name": "ind_" + name, "vars": allvars, "body": "implies(%s, %s)" % (guard, body), "note": "proved by induction (obligations induction:%s/base, /step)" % name,
+                            "patterns": None, "from_induction": True})
 
     def constant(self, dotted, typ):
         self.constants[dotted] = typ
@@ -186,7 +203,7 @@ BUILTIN_EXC = {
 
 def load_sidecar(path, registry=None):
     reg = registry or Registry()
-    ns = {k: getattr(reg, k) for k in ("record", "ghost", "specfun", "specdef", "axiom", "lemma", "constant",
+    ns = {k: getattr(reg, k) for k in ("record", "ghost", "specfun", "specdef", "axiom", "lemma", "constant", "induction",
                                          "contract", "exception", "assume", "bounded_check")}
     ns["REG"] = reg
     ns["__file__"] = path
